@@ -107,7 +107,9 @@ class WireCtx:
 
     def inline_map(self, side="w"):
         m = {cid: self.node(p) for cid, p in INLINE.items()}
-        m["WeakLink"] = self.node("yrs::types::TypeRef::encode_weak_link" if side == "w" else "yrs::types::TypeRef::decode_weak_link")
+        wl = "yrs::types::TypeRef::encode_weak_link" if side == "w" else "yrs::types::TypeRef::decode_weak_link"
+        if "weak" in self.Y.features or wl in self.Y.fns:   # compiled only with feature `weak`
+            m["WeakLink"] = self.node(wl)
         return m
 
 
